@@ -42,10 +42,10 @@ MIN_NONTRIVIAL = 200
 
 def plan(tier, seed):
     if tier == "quick":
-        kinds = {"image": 9000}
+        kinds = {"image": 9000, "huge": 2}
         per = 1100
     else:
-        kinds = {"image": 500000}
+        kinds = {"image": 500000, "huge": 24}
         per = 16000
     return common.shards(kinds, per_shard=per, tier=tier, seed=seed)
 
@@ -55,6 +55,14 @@ def _pow2(n):
 
 
 def gen(rng, kind, tier):
+    if kind == "huge":
+        # an image with more than a million cells (a large 2-D micrograph or a 3-D stack)
+        shape = [int(rng.integers(1030, 1200)), 2 * int(rng.integers(500, 550))] if rng.random() < 0.6 else [int(rng.integers(101, 110))] * 2 + [2 * int(rng.integers(51, 56))]
+        h = float(np.round(rng.uniform(0.5, 2.0), 3))
+        spec = {"family": "cart", "bounds": [[0.0, h * n] for n in shape], "shape": shape, "periodic": [bool(rng.integers(0, 2)) for _ in shape]}
+        return {"grid": spec, "image": {"type": "huge", "seed": int(rng.integers(1 << 30))}, "rule": "otsu",
+                "minimal_radius": "0", "a": 1.0, "b": 0.0, "extreme_map": False, "nan_cells": False, "refine": False,
+                "thr_seed": int(rng.integers(1 << 30)), "unit": 1.0, "no_map": True}
     fam = str(rng.choice(["cart", "cart", "cart", "cart", "polar", "sph", "cyl"]))
     if fam == "cart":
         dim = int(rng.choice([1, 2, 2])) if tier == "quick" else int(rng.choice([1, 2, 2, 3]))
@@ -99,6 +107,17 @@ def make_image(grid, spec, im):
     shape = tuple(spec["shape"])
     r = np.random.default_rng(im["seed"])
     t = im["type"]
+    if t == "huge":
+        # a few smooth blobs plus a column pattern (even and odd columns have a different gain), grey values k/1024
+        idx = np.indices(shape, sparse=True)
+        data = np.zeros(shape)
+        for _ in range(int(r.integers(2, 5))):
+            c = [float(r.uniform(0.2, 0.8)) * n for n in shape]
+            rad = float(r.uniform(0.05, 0.12)) * min(shape)
+            d2 = sum((idx[a] + 0.5 - c[a]) ** 2 for a in range(len(shape)))
+            data = np.maximum(data, 0.5 + 0.5 * np.tanh((rad - np.sqrt(d2)) / (0.05 * min(shape))))
+        gain = np.where(np.arange(shape[-1]) % 2 == 0, 1.0, float(r.choice([0.55, 0.7, 0.93])))
+        return np.round(data * gain * 1024) / 1024
     if t == "levels":
         return r.integers(0, 65, shape).astype(float) / 64.0
     if t == "noise":
@@ -275,6 +294,10 @@ def run(case, rec):
         # weak contrast on a large offset / huge contrast (still exact: dyadic data, a and b)
         a, b = [(2.0 ** -10, 256.0), (2.0 ** -9, -512.0), (1024.0, 0.0), (2.0 ** -12, 1.0)][case["thr_seed"] % 4]
         rec.count("extreme_affine_maps")
+    if case.get("no_map"):
+        rec.evaluated(nontrivial=len(cand) >= 2)
+        rec.count(f"huge:{rule}|cells:{data.size // 100000 * 100000}+")
+        return
     mapped = a * data + b
     thr2 = (a * thr_arg + b) if rule == "number" else thr_arg
     c2, _ = analyse(mapped, thr2, dtype=None)  # the mapped image is always float64 (so the pixel type must not matter either)
